@@ -174,7 +174,7 @@ def run(ctx):
                     "hyperparameter draws (betas, beta3, epsilon, momentum, dampening, weight decay x mode, Nesterov, bias correction, every "
                     "grafting type, inverse-root override int / list, exponent multiplier, ignored dims, merge, orders 0..4) and compared "
                     "after every step, tensor by tensor (parameters, factor matrices, inverse roots, filtered gradient, momentum, grafting "
-                    "accumulator, step) with a float64 closed-form reference whose control decisions come from the TLC states (rtol 1e-8); "
+                    "accumulator, step) with a float64 closed-form reference whose control decisions come from the TLC states (relative 1e-7; direction and roots of plain Shampoo 1e-6; iterative solvers 1e-4; the update itself relative to its own size); "
                     "two-group behaviours replayed as separate optimizers (bitwise); dtype pairings as plumbing; T: traces validated by TLC")
     if tasks:
         g0 = tasks[0][0]["groups"][0]
@@ -182,7 +182,7 @@ def run(ctx):
                     "behaviour": [{k: e[k] for k in e if k not in ("obs", "outc")} for e in tasks[0][1]]})
     ctx.assume("float64 parameters and preconditioner_dtype for tight comparison; lr, bias corrections and the root exponent are "
                "single-precision numbers in the code and the reference mirrors exactly that (documented precision details)")
-    ctx.assume("a numeric mutant whose effect is below 1e-8 relative at every sampled draw is not detectable")
+    ctx.assume("a numeric mutant whose effect is below 1e-7 relative (1e-6 for the Shampoo direction) at every sampled draw is not detectable")
 
 
 def replay(ctx, data):
